@@ -35,6 +35,7 @@ package blockstore
 //@   ensures v1_no_pragma [C05]: !v2 ==> writes(b.f) == old(writes(b.f))
 
 //@ func (*ReadWrite).finalizeReadOnlyWithoutMutex
+//@   requires write_locked [C08]: held(b.ronly.mu) == 2
 //@   requires writer: b.opts.WriteAsCarV1 || b.dataWriter != nil
 //@   call[store.Finalize#0] assert args [C05]: ref(arg0) == ref(b.f) && arg1 == b.header && ref(arg2) == ref(b.idx) && arg3 == wrap_u64(wrap_s64(wn(b.dataWriter) - wbase(b.dataWriter))) && arg4 == b.opts.StoreIdentityCIDs && arg5 == b.opts.IndexCodec
 //@   ensures finalized [C04]: err == nil ==> b.finalized
@@ -92,12 +93,11 @@ package blockstore
 
 //@ func (*ReadWrite).AllKeysChan
 //@   requires unlocked [C08]: held(b.ronly.mu) == 0
-//@   ghost after go[0]: held(b.ronly.mu) := 3
-//@   ensures released_or_handed_over [C08]: held(b.ronly.mu) == 0 || held(b.ronly.mu) == 3
-//@   closure[0]
-//@     requires index_guarded [C08]: held(b.ronly.mu) >= 1
-//@     call[InsertionIndex.ForEachCid#0] assert walks_index_under_lock [C08]: held(b.ronly.mu) >= 1
-//@   end
+//@   call[InsertionIndex.ForEachCid#0] assert walks_index_under_lock [C08]: held(b.ronly.mu) == 2
+//@   ensures released [C08]: held(b.ronly.mu) == 0
+//@   ensures closed_nil [C04]: old(b.ronly.closed) ==> result0 == nil
+//@   note the goroutine (closure[1]) starts with no lock held: the guard:* obligations generated for it from the
+//@   note vocabulary's guarded / guardeduse declarations must hold with held == 0, i.e. it may not touch the index
 
 //@ func (*ReadOnly).AllKeysChan
 //@   requires unlocked [C08]: held(b.mu) == 0
